@@ -42,10 +42,11 @@ structure Variant where
   ftClose : Bool     -- rfbClientConnectionGone closes cl->fileTransfer.fd
   extFree : Bool     -- rfbClientConnectionGone frees the cl->extensions list
   goneExtClose : Bool -- rfbClientConnectionGone runs the close hook of extensions that still own data
+  disableFree : Bool  -- rfbDisableExtension frees the list node it unlinks
   deriving DecidableEq, Repr
 
-def Variant.current : Variant := ⟨false, false, false, false, false, false, false⟩
-def Variant.fixed : Variant := ⟨true, true, true, true, true, true, true⟩
+def Variant.current : Variant := ⟨false, false, false, false, false, false, false, false⟩
+def Variant.fixed : Variant := ⟨true, true, true, true, true, true, true, true⟩
 
 inductive St where
   | ver | sec | auth | init | normal
@@ -93,6 +94,8 @@ structure Conn where
   ftFd : Bool := false
   exts : Nat := 0
   extData : Bool := false   -- an enabled extension still owns per-client data (released by its close hook)
+  ext1On : Bool := false    -- the harness' extension with data and hooks is enabled for this client
+  extInitRefuse : Bool := false -- its init hook will answer "remove me" (=> rfbDisableExtension)
   ftSending : Bool := false -- a download is in progress: rfbCheckFds sends a chunk every round
   -- protocol and scheduling
   onHold : Bool := false
@@ -107,6 +110,7 @@ inductive Event where
   | new (i : Nat) | hook (i : Nat) (h : Hook) | ret (i : Nat) (ok : Bool)
   | close (i : Nat) | gone (i : Nat) | kbd (i : Nat)
   | xnew (i : Nat) | xinit (i : Nat) | xclose (i : Nat) (withData : Bool)   -- extension hooks
+  | xdrop (i : Nat)                            -- the extension's data goes to rfbDisableExtension
   deriving DecidableEq, Repr
 
 structure Screen where
@@ -127,6 +131,7 @@ structure World where
   wsLostGone : Nat := 0                       -- wspath blocks dropped by rfbClientConnectionGone
   extLost : Nat := 0                          -- extension list nodes dropped with the record
   extDataLost : Nat := 0                      -- extension data whose close hook never ran
+  extNodeLost : Nat := 0                      -- list nodes unlinked by rfbDisableExtension and not freed
   stray : Nat := 0                            -- file-transfer descriptors nobody owns any more
   extOn : Bool := false
   pwOn : Bool := false                        -- new clients must authenticate (VNC authentication)
@@ -189,7 +194,7 @@ def closeClient (w : World) (i : Nat) : World :=
   match w.conns[i]? with
   | none => w
   | some c =>
-    let w1 := if c.exts > 0 then emit w (.xclose i c.extData) else w
+    let w1 := if c.ext1On then emit w (.xclose i c.extData) else w
     let w2 := modConn w1 i closeRec
     if c.sockOpen then emit w2 (.close i) else w2
 
@@ -208,6 +213,7 @@ def goneRec (c : Conn) : Conn :=
     ftFd := false
     exts := 0
     extData := false
+    ext1On := false
     ftSending := false
     freed := true }
 
@@ -277,7 +283,7 @@ def hookStage (v : Variant) (w : World) (i : Nat) (h : Hook) : World :=
 /-- extensions' newClient (the harness registers two: one with per-client data and init/close hooks,
 one with nothing; each enabled extension gets a list node), then the newClientHook -/
 def acceptHook (v : Variant) (w : World) (i : Nat) (h : Hook) : World :=
-  hookStage v (if w.extOn then emit (modConn w i fun c => { c with exts := 2, extData := true }) (.xnew i) else w) i h
+  hookStage v (if w.extOn then emit (modConn w i fun c => { c with exts := 2, extData := true, ext1On := true }) (.xnew i) else w) i h
 
 /-- after a successful WebSocket check: wsctx exists for WebSocket clients; the server's protocol
 version is written -/
@@ -322,6 +328,40 @@ def closeOthers (w : World) (i : Nat) : List Nat → World
       | none => w
     closeOthers w' i rest
 
+/-- `rfbDisableExtension(cl, ext)` for the extension with data: `free(data)`, unlink the node
+(variant: and free it) -/
+def disableExt (v : Variant) (w : World) (i : Nat) : World :=
+  match w.conns[i]? with
+  | some c =>
+    if c.ext1On then
+      { (modConn w i fun c => { c with exts := c.exts - 1, extData := false, ext1On := false }) with
+        extNodeLost := w.extNodeLost + (if v.disableFree then 0 else 1) }
+    else w
+  | none => w
+
+def ext1Enabled (w : World) (i : Nat) : Bool :=
+  match w.conns[i]? with
+  | some c => c.ext1On
+  | none => false
+
+/-- `rfbEnableExtension(cl, ext, data)` by the application: refused if already enabled -/
+def enableExt (w : World) (i : Nat) : World :=
+  match w.conns[i]? with
+  | some c =>
+    if c.ext1On then w
+    else emit (modConn w i fun c => { c with exts := c.exts + 1, extData := true, ext1On := true }) (.xnew i)
+  | none => w
+
+/-- the extensions' init hooks at the end of `rfbProcessClientInitMessage`: an init hook that returns
+FALSE has its extension disabled on the spot -/
+def extInit (v : Variant) (w : World) (i : Nat) : World :=
+  match w.conns[i]? with
+  | some c =>
+    if c.ext1On then
+      if c.extInitRefuse then disableExt v (emit (emit w (.xinit i)) (.xdrop i)) i else emit w (.xinit i)
+    else w
+  | none => w
+
 /-- `rfbFileTransferRequest` for an existing file: `cl->fileTransfer.fd = open(...)`; a descriptor
 that is still open is overwritten (variant: closed first) -/
 def openFt (v : Variant) (w : World) (i : Nat) : World :=
@@ -339,9 +379,7 @@ def msgEffect (v : Variant) (w : World) (i : Nat) (m : Msg) : World :=
   | .auth ok => if ok then modConn w i fun c => { c with st := .init } else closeClient w i
   | .init sh =>
     -- ServerInit written; the extensions' init hooks; state NORMAL; the policy block
-    let w := match w.conns[i]? with
-      | some c => if c.exts > 0 then emit w (.xinit i) else w
-      | none => w
+    let w := extInit v w i
     let w := modConn w i fun c => { c with st := .normal }
     if sh then w else closeOthers w i w.list
   | .enc => w
@@ -519,6 +557,7 @@ inductive Op where
   | appClose (i : Nat) | start (i : Nat) | refuse (i : Nat)
   | kbdClose (i : Nat) | goneKick (i k : Nat)
   | ext | pw
+  | extRefuse (i : Nat) | extDrop (i : Nat) | extAdd (i : Nat)
   | shutdown | cleanup
   deriving Repr
 
@@ -539,6 +578,10 @@ def step (v : Variant) (w : World) : Op → World
   | .goneKick i k => modConn w i fun c => { c with goneKick := some k }
   | .ext => { w with extOn := true }
   | .pw => { w with pwOn := true }
+  | .extRefuse i => modConn w i fun c => { c with extInitRefuse := true }
+  | .extDrop i =>
+    if appKnows w i && isOpen w i && ext1Enabled w i then disableExt v (emit w (.xdrop i)) i else w
+  | .extAdd i => if appKnows w i && isOpen w i then enableExt w i else w
   | .shutdown => shutdown v w
   | .cleanup => cleanup v w
 
